@@ -147,10 +147,10 @@ func renameOverlayDir(p *eng.Prog, repo string, fns map[*ssa.Function]bool, dir 
 // swapEqOperands rewrites, in the files already written to dir, every `x == y`
 // / `x != y` inside the target functions to `y == x` / `y != x` (a second
 // neutral change: the rules must not depend on operand order).
-var msgs int
+var msgs, nClos int
 
 func swapEqOperands(dir string, fns map[*ssa.Function]bool) (int, error) {
-	msgs = 0
+	msgs, nClos = 0, 0
 	names := map[string]bool{}
 	for fn := range fns {
 		top := eng.TopFunc(fn)
@@ -179,6 +179,12 @@ func swapEqOperands(dir string, fns map[*ssa.Function]bool) (int, error) {
 			fd, ok := d.(*ast.FuncDecl)
 			if !ok || fd.Body == nil || !names[fd.Name.Name] {
 				continue
+			}
+			// fourth neutral change: an immediately-invoked empty closure as the first statement shifts the
+			// number go/ssa gives every anonymous function behind it (eng/closures.go maps them back)
+			if len(fd.Body.List) > 0 {
+				es = append(es, edit{fset.Position(fd.Body.Lbrace).Offset + 1, 0, "\n\tfunc() {}()\n"})
+				nClos++
 			}
 			// third neutral change: reword error and log messages (first string literal of fmt.Errorf,
 			// errors.New, ErrorResponse and logger calls)
@@ -276,6 +282,7 @@ func renameTest(repo, id string, c *eng.Ctx, baseOpen map[string]bool) map[strin
 		nsw, err = swapEqOperands(dir, fns)
 		res["comparisons_swapped"] = nsw
 		res["messages_reworded"] = msgs
+		res["closures_inserted"] = nClos
 	}
 	if err != nil {
 		res["outcome"] = "error: " + err.Error()
@@ -300,7 +307,7 @@ func renameTest(repo, id string, c *eng.Ctx, baseOpen map[string]bool) map[strin
 	res["false_alarms"] = alarms
 	if len(alarms) == 0 {
 		res["outcome"] = "silent"
-		fmt.Printf("SELFTEST property=%s neutral-rename of %d function(s), %d identifier(s): swap of %v ==/!= comparison(s), %v message(s) reworded: silent (as required)\n", id, nf, nid, res["comparisons_swapped"], res["messages_reworded"])
+		fmt.Printf("SELFTEST property=%s neutral-rename of %d function(s), %d identifier(s): swap of %v ==/!= comparison(s), %v message(s) reworded, %v closure(s) inserted: silent (as required)\n", id, nf, nid, res["comparisons_swapped"], res["messages_reworded"], res["closures_inserted"])
 	} else {
 		res["outcome"] = "alarmed"
 		fmt.Printf("SELFTEST property=%s neutral-rename of %d function(s): %d FALSE ALARM(S), first: %s\n", id, nf, len(alarms), alarms[0])
